@@ -61,11 +61,31 @@ def opPrim (args : List String) : String :=
     | _, _, _ => "bad-op"
   | _ => "bad-op"
 
+/-- `wparams <exprs packed> <cents packed> <mask> <cell 9 rationals> <precision> <atoms 3n rationals>` -/
+def opWParams (args : List String) : String :=
+  open Matid.WyckoffParams Matid.Table in
+  match args with
+  | [exS, ceS, maskS, cellS, precS, atomsS] =>
+    match parseList? parseNat? exS, parseList? parseNat? ceS, maskS.toNat?, parseList? parseRat? cellS, parseRat? precS, parseList? parseRat? atomsS with
+    | some ex, some ce, some mask, some [a1, a2, a3, b1, b2, b3, c1, c2, c3], some prec, some ats =>
+      if ats.length % 3 != 0 then "bad-op" else
+      let atoms : List V3 := (List.range (ats.length / 3)).map fun i => (ats.getD (3 * i) 0, ats.getD (3 * i + 1) 0, ats.getD (3 * i + 2) 0)
+      let cell : V3 × V3 × V3 := ((a1, a2, a3), (b1, b2, b3), (c1, c2, c3))
+      match solveParams MatidGen.WyckoffRule.rule MatidGen.WyckoffRule.firstTol (ex.map decode) (ce.map decode) mask cell atoms prec with
+      | none => "ValueError"
+      | some W =>
+        let vals := [(0, "x", W.1), (1, "y", W.2.1), (2, "z", W.2.2)].filter (fun p => hasVar mask p.1)
+        if vals.isEmpty then "no-variables" else
+        ";".intercalate (vals.map fun p => p.2.1 ++ "=" ++ showRat (wrapParam p.2.2))
+    | _, _, _, _, _, _ => "bad-op"
+  | _ => "bad-op"
+
 def step (line : String) : String :=
   match words line with
   | "radii" :: args => opRadii args
   | "chiral" :: args => opChiral args
   | "prim" :: args => opPrim args
+  | "wparams" :: args => opWParams args
   | _ => "bad-op"
 
 partial def loop (h : IO.FS.Stream) (out : IO.FS.Stream) : IO Unit := do
